@@ -46,6 +46,9 @@ class Container:
         self.n = 2 if kind.endswith("2") else 1
         self.named = kind.startswith("named")
         self.names = (["x", "y"] if self.named else ["_0", "_1"])[:self.n]
+        if kind == "namedraw1":   # raw-identifier field: `r#type` in Rust code, `type` inside a format literal
+            self.names = ["r#type"]
+        self.lnames = [a[2:] if a.startswith("r#") else a for a in self.names]
         self.enum = kind.startswith("variant")
 
     def item(self, derive, attr_text):
@@ -71,7 +74,7 @@ class Container:
 
 def gen_cases(thorough):
     cases = []
-    containers = ["tuple1", "named1", "tuple2", "variant1", "variant2"] + (["named2"] if thorough else [])
+    containers = ["tuple1", "named1", "namedraw1", "tuple2", "variant1", "variant2"] + (["named2"] if thorough else [])
     derives = ["Display", "LowerHex", "Pointer", "Debug"] + (["Binary", "Octal", "UpperHex", "LowerExp", "UpperExp"] if thorough else ["UpperExp"])
 
     def add(derive, cont, attr_args, expect, arg_expr=None, ptrait=None, desc=""):
@@ -100,6 +103,7 @@ def gen_cases(thorough):
             c = Container(cont)
             f0 = c.names[0]
             last = c.names[-1]
+            llast = c.lnames[-1]
             # (a) no attribute on a single-field type: Display-like only
             if c.n == 1 and derive != "Debug":
                 add(derive, cont, None, "pass", "*f0", derive, "implicit single field")
@@ -108,7 +112,7 @@ def gen_cases(thorough):
                     continue
                 sp = (":" + letter) if letter else ""
                 # field by name, no arguments
-                add(derive, cont, lit_rs("{%s%s}" % (last, sp)), "pass", "*f%d" % (c.n - 1), ptrait, "bare, field by name")
+                add(derive, cont, lit_rs("{%s%s}" % (llast, sp)), "pass", "*f%d" % (c.n - 1), ptrait, "bare, field by name")
                 # one positional argument (implicit and explicit index 0)
                 add(derive, cont, lit_rs("{%s}" % sp) + ", " + last, "pass", "f%d" % (c.n - 1), ptrait, "bare, implicit index, one argument")
                 add(derive, cont, lit_rs("{0%s}" % sp) + ", " + f0, "pass", "f0", ptrait, "bare, index 0, one argument")
@@ -118,9 +122,9 @@ def gen_cases(thorough):
                 add(derive, cont, lit_rs("{%s}" % sp) + ", a = " + last, "pass", "f%d" % (c.n - 1), ptrait, "bare, implicit index, one named argument")
                 add(derive, cont, lit_rs("{0%s}" % sp) + ", a = " + f0, "pass", "f0", ptrait, "bare, index 0, one named argument")
                 # std::fmt allows whitespace after the argument and before the closing brace: still one bare placeholder
-                add(derive, cont, lit_rs("{%s %s}" % (last, sp)), "pass", "*f%d" % (c.n - 1), ptrait, "bare, field by name, whitespace after the argument")
+                add(derive, cont, lit_rs("{%s %s}" % (llast, sp)), "pass", "*f%d" % (c.n - 1), ptrait, "bare, field by name, whitespace after the argument")
                 add(derive, cont, lit_rs("{0 %s}" % sp) + ", " + f0, "pass", "f0", ptrait, "bare, index 0, whitespace after the argument")
-                add(derive, cont, lit_rs("{%s%s  }" % (last, sp)), "pass", "*f%d" % (c.n - 1), ptrait, "bare, field by name, whitespace before the closing brace")
+                add(derive, cont, lit_rs("{%s%s  }" % (llast, sp)), "pass", "*f%d" % (c.n - 1), ptrait, "bare, field by name, whitespace before the closing brace")
                 if ptrait != "Pointer":
                     # expression argument
                     add(derive, cont, lit_rs("{%s}" % sp) + ", %s.wrapping_add(1)" % f0, "pass", "v0.wrapping_add(1)", ptrait, "bare, expression argument")
@@ -134,7 +138,7 @@ def gen_cases(thorough):
                 if il == "{%s:>1$}":
                     add(derive, cont, lit_rs("{0:>1$}") + ", %s, 6usize" % f0, "inert", desc="width argument")
                     continue
-                lit = il.replace("%s", last)
+                lit = il.replace("%s", llast)
                 add(derive, cont, lit_rs(lit), "inert", desc="inert: " + il)
                 if il in ("{%s:>8}", "a{%s}", "{%s:x?}"):
                     add(derive, cont, lit_rs(il.replace("%s", "0")) + ", " + last, "inert", desc="inert (positional): " + il)
